@@ -41,7 +41,7 @@ def _relocate(rng, data):
     main_dir = posixpath.dirname(main)
     new_root_dir = rng.choice(ROOT_DIRS)
     newname = {}          # old member -> new member
-    used = set()
+    used = set(); bases = []
 
     def fresh(path):
         k = 0; p = path
@@ -70,6 +70,11 @@ def _relocate(rng, data):
                 # also names that merely BEGIN with the name of the directory they are stored in (word/wordmark1.xml)
                 dn = posixpath.basename(nd)
                 base = rng.choice(['p', 'item', 'ξ', ty, dn + 'mark' if dn and not sub else ty]) + str(rng.randint(0, 99)) + '.xml'
+                # two parts may carry the SAME file name in different directories (word/hdr/part1.xml, word/ftr/part1.xml): each has
+                # its own relationships file, found by its full path
+                same = [b for b in bases if posixpath.normpath(posixpath.join(nd, sub, b)) not in used]
+                if same and rng.random() < 0.4: base = rng.choice(same)
+                bases.append(base)
                 newname[old] = fresh(posixpath.normpath(posixpath.join(nd, sub, base)))
             place(old, depth + 1)
 
